@@ -1,3 +1,4 @@
+mod body;
 mod common;
 mod alloc;
 mod fes;
@@ -19,6 +20,7 @@ fn main() {
         ("rt", "replay") => rt::replay(&args[2..]),
         ("props", "replay") => props::replay(&args[2..]),
         ("props", "slots") => props::replay_slots(&args[2..]),
+        ("body", "replay") => body::replay(&args[2..]),
         ("gates", "replay") => gates::replay(&args[2..]),
         ("alloc", "replay") => alloc::replay(&args[2..]),
         ("alloc", "record") => alloc::record(&args[2..]),
